@@ -563,6 +563,10 @@ _WIDE_DTYPES = {'float', 'numpy.float64', 'np.float64', 'numpy.double', 'np.doub
 _MAKERS = {'zeros', 'empty', 'ones', 'full', 'array', 'asarray', 'arange', 'zeros_like', 'empty_like', 'ones_like', 'full_like', 'astype', 'sum', 'cumsum', 'add', 'linspace', 'indices', 'fromfunction', 'asanyarray'}
 
 
+_NARROW_TOKENS = ('min_scalar_type', 'int8', 'int16', 'int32', 'uint', 'float16', 'float32', 'single', 'half', 'short', 'byte', "'f'", "'f4'", "'i4'", "'i2'", "'i1'", "'u1'", "'u2'", "'u4'", "'e'", 'intc')
+_ACCUMULATORS = {'zeros', 'empty', 'ones', 'full'}
+
+
 def rule_dtype(rep, m, fn, what, rule='R-DTYPE'):
     """arrays that receive counts, totals or spectra are created in a wide, fixed type (numpy's default float64 / int64): a `dtype`
     that is narrower (uint8, int16, float32, numpy.min_scalar_type(..)) wraps or truncates for large samples, and one borrowed from
@@ -587,7 +591,12 @@ def rule_dtype(rep, m, fn, what, rule='R-DTYPE'):
                 continue
             if isinstance(d, ast.Name) and d.id == 'dtype':      # a dtype parameter handed through (Spectrum.__new__)
                 continue
-            bad.append((c.lineno, '%s(..., dtype=%s)' % (name or last, t)))
+            narrow = any(k in t for k in _NARROW_TOKENS)
+            borrowed = isinstance(d, ast.Attribute) and d.attr == 'dtype'
+            # a narrow type is wrong wherever counts or densities are held; a borrowed one (`dtype=phi.dtype`) only for the arrays that
+            # RECEIVE results (zeros / empty / ones / full): index ranges or orders kept in the type of the grid lose nothing
+            if narrow or (borrowed and last in _ACCUMULATORS):
+                bad.append((c.lineno, '%s(..., dtype=%s)' % (name or last, t)))
     rep.ob(rule, '%s:%s' % (m.rel, q), not bad,
            ('%d explicit dtype(s), all wide and fixed' % seen) if not bad else
            '; '.join('line %d: `%s` is narrower than float64/int64 or depends on an argument: values wrap or are truncated' % b for b in bad[:3]),
